@@ -5,6 +5,7 @@ import (
 	"fmt"
 	"math"
 	"reflect"
+	"sort"
 	"strings"
 	"time"
 	"unsafe"
@@ -430,13 +431,16 @@ func SortKVs(kt *TSpec, m []KV) {
 	for i := range m {
 		keys[i] = m[i].K.key(kt)
 	}
-	// insertion sort: maps are small
-	for i := 1; i < len(m); i++ {
-		for j := i; j > 0 && keys[j] < keys[j-1]; j-- {
-			keys[j], keys[j-1] = keys[j-1], keys[j]
-			m[j], m[j-1] = m[j-1], m[j]
-		}
+	idx := make([]int, len(m))
+	for i := range idx {
+		idx[i] = i
 	}
+	sort.SliceStable(idx, func(a, b int) bool { return keys[idx[a]] < keys[idx[b]] })
+	out := make([]KV, len(m))
+	for i, j := range idx {
+		out[i] = m[j]
+	}
+	copy(m, out)
 }
 
 // Equal compares two values of type t structurally: floats by bits, times by
